@@ -162,6 +162,7 @@ type c20Sub struct {
 }
 
 type c20Case struct {
+	Kind string     `json:"kind,omitempty"` // set by the other C20 harness (nodebuilder/header): not a replay for this one
 	Seed uint64     `json:"seed"`
 	Subs []c20SubJS `json:"subs"`
 }
@@ -779,7 +780,9 @@ func TestVerifC20(t *testing.T) {
 
 	var rep c20Case
 	if r.ReplayInput(&rep) {
-		record(rep.Seed)
+		if rep.Kind == "" {
+			record(rep.Seed)
+		}
 		return
 	}
 	rng := r.Rand()
